@@ -105,6 +105,75 @@ def check_node(n, leaves, env, which, stats):
         raise Violation("columns-untruthful", f"declared columns {set(n.columns)} != schema of the decoded sub-tree {set(schema(dec, leaves))}; {ctx}", field="columns")
 
 
+def check_executed_bounds(root, rows, what):
+    """The statement as written: the executed row count lies within the relation's declared bounds, every executed row
+    has exactly the relation's columns."""
+    lo, hi = root.min_rows, root.max_rows
+    if len(rows) < lo or (hi is not None and len(rows) > hi):
+        raise Violation("bounds-untruthful", f"executed row count {len(rows)} outside the declared [{lo}, {hi}]; tree {str(root)[:300]}; program {what}", field="bounds-executed")
+    want = set(root.columns)
+    for r in rows:
+        if set(r.keys()) != want:
+            raise Violation("columns-untruthful", f"executed row keys {set(r.keys())} != declared columns {want}; tree {str(root)[:300]}", field="columns-executed")
+
+
+_KEEP_MAX = None
+
+
+def custom_filter_bounds(root, rows, env, stats):
+    """A user-defined RowFilter that relies on the base-class row bounds (extension point): it keeps the rows holding the
+    largest value of a column, so it truthfully declares itself empty-invariant; the bounds the library derives for
+    the resulting relation must contain the true count."""
+    global _KEEP_MAX
+    import dataclasses
+
+    from lsst.daf.relation import ColumnTag, RowFilter
+
+    cols = sorted(root.columns, key=lambda t: t.qualified_name)
+    if not cols:
+        return
+    if _KEEP_MAX is None:
+
+        @dataclasses.dataclass(frozen=True)
+        class KeepMax(RowFilter):
+            tag: ColumnTag
+
+            def __str__(self):
+                return f"keepmax[{self.tag}]"
+
+            @property
+            def columns_required(self):
+                return frozenset({self.tag})
+
+            @property
+            def is_order_dependent(self):
+                return False
+
+            @property
+            def is_empty_invariant(self):
+                return True
+
+            def applied_max_rows(self, target):
+                return target.max_rows
+
+        _KEEP_MAX = KeepMax
+    t = cols[0]
+    try:
+        rel = _KEEP_MAX(t).apply(root)
+    except Exception as e:
+        raise Violation("custom-filter-raised", f"applying a user-defined RowFilter raised {type(e).__name__}: {e}; target {str(root)[:200]}", exc=e)
+    top = max((r[t] for r in rows), default=None)
+    count = sum(1 for r in rows if r[t] == top)
+    lo, hi = rel.min_rows, rel.max_rows
+    if count < lo or (hi is not None and count > hi):
+        raise Violation(
+            "bounds-untruthful",
+            f"user-defined empty-invariant RowFilter (keeps the rows with the largest {t}) over {str(root)[:200]}: true row count {count} outside the derived [{lo}, {hi}]",
+            field="bounds-custom-filter",
+        )
+    stats.c["custom-filter:bounds-checked"] += 1
+
+
 def run_case(case, stats):
     from lsst.daf.relation import ColumnError, EngineError
 
@@ -122,6 +191,26 @@ def run_case(case, stats):
             stats.c["build:refused"] += 1
             return
         root = rels[id(prog)]
+        # equal relations may differ in row bounds and content: the same program is first built and inspected over twin
+        # leaves (same engines, names and columns; fewer rows, exact bounds), then the original is inspected
+        if int(codec.digest(case)[:2], 16) % 2 == 0:
+            from vf.core.prog import OutOfDomain, twin_leaves
+
+            leaves2 = twin_leaves(leaves)
+            tw = env.twin(leaves2)
+            try:
+                rels2 = {}
+                build_all(prog, tw, rels2)
+                seen2 = set()
+                for n in lib_nodes(rels2[id(prog)]):
+                    if id(n) not in seen2:
+                        seen2.add(id(n))
+                        check_node(n, leaves2, tw, which, stats)
+                stats.c["twin-programs"] += 1
+            except (BuildError, OutOfDomain):
+                pass
+            finally:
+                tw.close_tables()
         seen = set()
         for n in lib_nodes(root):
             if id(n) in seen:
@@ -137,6 +226,8 @@ def run_case(case, stats):
                 raise Violation("execute-raised", f"{type(e).__name__}: {e}; {root}", exc=e)
             if got != exp:
                 raise Violation("engine-disagrees", f"iteration engine returned {got[:6]} expected {exp[:6]}; tree {root}")
+            check_executed_bounds(root, got, fmt(prog, leaves))
+            custom_filter_bounds(root, exp, env, stats)
         else:
             from lsst.daf.relation import Materialization
 
@@ -152,6 +243,7 @@ def run_case(case, stats):
                         bad = compare(res, rows)
                         if bad:
                             raise Violation("engine-disagrees", f"{bad}; program {fmt(prog, leaves)}; tree {root}")
+                        check_executed_bounds(root, rows, fmt(prog, leaves))
         # after everything above was compiled / executed, each leaf still executes to its own rows, within its declared
         # bounds (the leaves' truthfulness is the premise of every other statement here)
         from vf.core.prog import leaf_indices, leaf_rows, multiset
